@@ -1810,7 +1810,6 @@ void SZ_compress_args_double_NoCkRngeNoGzip_1D_pwr_pre_log(unsigned char** newBy
 	}
 
 	double valueRangeSize, medianValue_f;
-	computeRangeSize_double(log_data, dataLength, &valueRangeSize, &medianValue_f);
 	if(fabs(min_log_data) > max_abs_log_data) max_abs_log_data = fabs(min_log_data);
 	double realPrecision = log2(1.0 + pwrErrRatio) - max_abs_log_data * 2.23e-16;
 	if(realPrecision <= 0)
@@ -1827,6 +1826,8 @@ void SZ_compress_args_double_NoCkRngeNoGzip_1D_pwr_pre_log(unsigned char** newBy
 			log_data[i] = min_log_data - 3.0*realPrecision - 8*max_abs_log_data*2.23e-16; //a zero decodes to at most min_log - 2*e - 8 roundings, strictly below the threshold
 		}
 	}
+	//the range and the median the kernel works with cover the placeholders of the zeros as well
+	computeRangeSize_double(log_data, dataLength, &valueRangeSize, &medianValue_f);
     TightDataPointStorageD* tdps = SZ_compress_double_1D_MDQ(log_data, dataLength, realPrecision, valueRangeSize, medianValue_f);
     tdps->minLogValue = min_log_data - 1.5*realPrecision - 4*max_abs_log_data*2.23e-16; //the smallest magnitude decodes to at least min_log - e, strictly above; the margins are e/2 plus four roundings of the largest log value
     free(log_data);
@@ -1880,7 +1881,6 @@ void SZ_compress_args_double_NoCkRngeNoGzip_2D_pwr_pre_log(unsigned char** newBy
 	}
 
 	double valueRangeSize, medianValue_f;
-	computeRangeSize_double(log_data, dataLength, &valueRangeSize, &medianValue_f);
 	if(fabs(min_log_data) > max_abs_log_data) max_abs_log_data = fabs(min_log_data);
 	double realPrecision = log2(1.0 + pwrErrRatio) - max_abs_log_data * 2.23e-16;
 	if(realPrecision <= 0)
@@ -1897,6 +1897,8 @@ void SZ_compress_args_double_NoCkRngeNoGzip_2D_pwr_pre_log(unsigned char** newBy
 			log_data[i] = min_log_data - 3.0*realPrecision - 8*max_abs_log_data*2.23e-16; //a zero decodes to at most min_log - 2*e - 8 roundings, strictly below the threshold
 		}
 	}
+	//the range and the median the kernel works with cover the placeholders of the zeros as well
+	computeRangeSize_double(log_data, dataLength, &valueRangeSize, &medianValue_f);
     TightDataPointStorageD* tdps = SZ_compress_double_2D_MDQ(log_data, r1, r2, realPrecision, valueRangeSize, medianValue_f);
     tdps->minLogValue = min_log_data - 1.5*realPrecision - 4*max_abs_log_data*2.23e-16; //the smallest magnitude decodes to at least min_log - e, strictly above; the margins are e/2 plus four roundings of the largest log value
     free(log_data);
@@ -1951,7 +1953,6 @@ void SZ_compress_args_double_NoCkRngeNoGzip_3D_pwr_pre_log(unsigned char** newBy
 	}
 
 	double valueRangeSize, medianValue_f;
-	computeRangeSize_double(log_data, dataLength, &valueRangeSize, &medianValue_f);
 	if(fabs(min_log_data) > max_abs_log_data) max_abs_log_data = fabs(min_log_data);
 	double realPrecision = log2(1.0 + pwrErrRatio) - max_abs_log_data * 2.23e-16;
 	if(realPrecision <= 0)
@@ -1968,6 +1969,8 @@ void SZ_compress_args_double_NoCkRngeNoGzip_3D_pwr_pre_log(unsigned char** newBy
 			log_data[i] = min_log_data - 3.0*realPrecision - 8*max_abs_log_data*2.23e-16; //a zero decodes to at most min_log - 2*e - 8 roundings, strictly below the threshold
 		}
 	}
+	//the range and the median the kernel works with cover the placeholders of the zeros as well
+	computeRangeSize_double(log_data, dataLength, &valueRangeSize, &medianValue_f);
     TightDataPointStorageD* tdps = SZ_compress_double_3D_MDQ(log_data, r1, r2, r3, realPrecision, valueRangeSize, medianValue_f);
     tdps->minLogValue = min_log_data - 1.5*realPrecision - 4*max_abs_log_data*2.23e-16; //the smallest magnitude decodes to at least min_log - e, strictly above; the margins are e/2 plus four roundings of the largest log value
     free(log_data);
